@@ -272,6 +272,8 @@ def collect(chk, workers, prop, san_props=None, ok_rcs=(0, 4)):
                 chk.violation(v["key"], v.get("msg", ""), rep)
             else:
                 other[v["key"]] = other.get(v["key"], 0) + 1
+                if "hang" in v["key"] and len(chk.notes) < 15:
+                    chk.notes.append("other-property hang: %s %s | %s" % (v.get("case"), v.get("msg", "")[:300], str(v.get("oplog", ""))[-600:]))
         san = sanitizer_report(wk.err)
         if san:
             kind, top, excerpt = san
